@@ -132,11 +132,11 @@ def outcome_class(r):
 KEYWORD_SHAPES = [b";", b" {", b" {};", b" x;", b' "a";', b" 1.e-8;", b" <", b"", b" {x: 1};", b" x = 1;"]
 
 
-def keyword_sweep(g, keywords, bases, thorough):
+def keyword_sweep(g, keywords, bases, thorough, nshapes=4):
     """systematic part of the keyword-aware fuzz: every keyword of a dictionary placed (a) alone after the header of a
     minimal input, (b) right after the header of a real input, (c) at the end of a real input, followed by a few argument
     shapes.  `bases` = (minimal header, real input) as bytes; the real input is split after its first ';'.
-    quick: one (placement, shape) per keyword drawn by g; thorough: all placements x 4 shapes.  -> list of (label, bytes)"""
+    quick: one (placement, shape) per keyword drawn by g; thorough: all placements x nshapes shapes.  -> list of (label, bytes)"""
     head, real = bases
     cut = real.find(b";") + 1
     out = []
@@ -144,7 +144,7 @@ def keyword_sweep(g, keywords, bases, thorough):
         places = [("bare", head + b"\n" + kw + b"%s\n"), ("begin", real[:cut] + b"\n" + kw + b"%s\n" + real[cut:]), ("end", real + b"\n" + kw + b"%s\n")]
         if thorough:
             for pn, tpl in places:
-                for sh in g.sample(KEYWORD_SHAPES, 4):
+                for sh in g.sample(KEYWORD_SHAPES, nshapes):
                     out.append(("%s/%s" % (kw.decode(), pn), tpl.replace(b"%s", sh, 1)))
         else:
             pn, tpl = g.choice(places)
